@@ -81,6 +81,17 @@ def main():
             r = subprocess.run([snap + '/check', p, 'quick'], env=env, stdout=subprocess.PIPE, stderr=subprocess.STDOUT, text=True)
             lines = [l for l in r.stdout.splitlines() if l.startswith('VIOLATION') or l.startswith('violation:') or l.startswith('  detail') or l.startswith('HARNESS')]
             meta['checks'][p] = {'exit': r.returncode, 'lines': [l[:400] for l in lines[:6]]}
+            # witness faithfulness: each minimised replay must pass on the unchanged tree
+            # (a witness that also "fails" there shows nothing about the change)
+            if r.returncode == 1:
+                faithful = []
+                for l in lines:
+                    if l.startswith('VIOLATION') and 'replay=' in l:
+                        path = l.split('replay=')[1].strip()
+                        if os.path.exists(path):
+                            c = subprocess.run(['/verif/check', 'replay', path], stdout=subprocess.PIPE, stderr=subprocess.STDOUT, text=True)
+                            faithful.append(c.returncode == 0)
+                meta['checks'][p]['witnesses_pass_on_unchanged_tree'] = faithful
             print('   %s exit=%d %s' % (p, r.returncode, (lines[0][:200] if lines else '')), flush=True)
         meta['caught_by'] = [p for p in PROPS if meta['checks'][p]['exit'] == 1]
         meta['caught_by_own_property_check'] = prop in meta['caught_by']
